@@ -307,7 +307,13 @@ func runOne(c *mon.Case, p *prog, plan cancelPlan) {
 	asyncDone := make(chan struct{})
 	go func() {
 		defer close(asyncDone)
-		backstop := time.After(400 * time.Millisecond)
+		// Only a program with an endless sleep needs a backstop interrupt (all
+		// others end by themselves); it is generous so that on a loaded
+		// machine the in-program cancel normally comes first.
+		var backstop <-chan time.Time
+		if p.HasSleep {
+			backstop = time.After(1500 * time.Millisecond)
+		}
 		switch plan.Mode {
 		case "async-events":
 		spin:
@@ -556,7 +562,7 @@ func Spec() *mon.Spec {
 			"'no further pipeline starts' is decided on the logical clock only: a step S violates it if some event E that happens-before S's pipeline start (same thread label, a descendant thread that the thread waited for, or an ancestor thread blocked on it) returned after the cancellation had completed; a pipeline whose start check raced with the interrupt on another goroutine is not a violation",
 			"background jobs (`... &`) are exempt from the step rule, as the property says; they only record events and end by themselves",
 			"Elvish lambdas cannot run anything after the interrupt, so the running-callback counter uses Go-builtin callbacks (v-job / $v-job1~), which - like every builtin - run regardless of the interrupt",
-			"a program containing `sleep 100000` gets an asynchronous backstop interrupt after 400 ms; only the timing-insensitive clauses apply to such runs",
+			"a program containing `sleep 100000` gets an asynchronous backstop interrupt after 1.5 s (needed when the chosen cancel position is never reached); only the timing-insensitive clauses apply to runs in which the backstop fired",
 			"an evaluation that does not return is judged inside the case: interrupted + every goroutine blocked in two identical censuses 1 s apart = violation; otherwise inconclusive",
 		},
 		Phases: []mon.Phase{
